@@ -2,8 +2,9 @@
    model SC.C09.Model (a transliteration of src/linear/logistic_regression.rs, src/optimization/
    first_order/lbfgs.rs, src/optimization/line_search.rs, src/math/num.rs), which the correspondence
    check ties to the code on every run. *)
-From Coq Require Import List ZArith Bool Reals Lra.
-From SC Require Import Base.Num C09.Model C09.ProofsSearch C09.ProofsExamples.
+From Coq Require Import List ZArith Bool Reals Lra Lia.
+From Coquelicot Require Import Coquelicot.
+From SC Require Import Base.Num C09.Model C09.ProofsSearch C09.ProofsGrad C09.ProofsStable C09.ProofsPredict C09.ProofsExamples.
 Import ListNotations.
 Local Open Scope R_scope.
 
@@ -51,3 +52,70 @@ Theorem C09_two_loop_first_step_is_steepest_descent :
   s = map Ropp g /\ vdot ROps g s = - vdot ROps g g /\ vdot ROps g s <= 0 /\
   ((exists x, In x g /\ x <> 0) -> vdot ROps g s < 0).
 Proof. exact first_step_descent. Qed.
+
+(* The coded gradient of the two-class objective IS the gradient of the coded objective: for every data set with
+   p features per row, every label vector, every alpha and every point w (p weights then the bias), the partial
+   derivative of `BinaryObjectiveFunction::f` with respect to coordinate j <= p is entry j of
+   `BinaryObjectiveFunction::df` -- in particular the penalty contributes alpha*w_j for the weights (j < p)
+   and nothing for the bias (j = p).  Over R, with ln(1+e^x) and 1/(1+e^-x) for the overflow-safe forms
+   (C09_stable_forms bounds the difference). *)
+Theorem C09_binary_df_is_gradient :
+  forall p (x : list (list R)) (y : list nat) alpha (w : list R) j,
+  length w = S p -> List.Forall (fun r => length r = p) x -> (j <= p)%nat ->
+  is_derive (fun t => binary_f_gen ROps lse_exact p x y alpha (upd w j t)) (nth j w 0)
+            (binary_df_entry ROps sig_exact p x y alpha w j).
+Proof. exact binary_df_is_gradient. Qed.
+
+Example C09_binary_df_is_gradient_sat :
+  length [1/2; -1/4; 3] = 3%nat /\ List.Forall (fun r : list R => length r = 2%nat) [[1; 2]; [-3; 1/2]; [0; 4]] /\ (2 <= 2)%nat.
+Proof. repeat split; repeat constructor. Qed.
+
+(* The multinomial counterpart is NOT proved (it is searched numerically at random points and compared with
+   the model in binary64): the full intended statement, with the shift-free softmax of C09_stable_forms. *)
+Definition C09_multiclass_df_is_gradient_full_statement : Prop :=
+  forall p k (x : list (list R)) (y : list nat) alpha (w : list R) q,
+  length w = (k * S p)%nat -> List.Forall (fun r => length r = p) x -> List.Forall (fun c => (c < k)%nat) y ->
+  (q < k * S p)%nat ->
+  is_derive (fun t => multi_f_gen ROps softmax_def p k x y alpha (upd w q t)) (nth q w 0)
+            (multi_df_entry ROps softmax_def p k x y alpha w q).
+
+(* The overflow-safe scalar forms equal their definitions over R: sigmoid exactly on [-40,40] and within e^-40
+   everywhere; ln_1pe exactly up to 15 and, above, the shortcut `x` is below ln(1+e^x) by at most e^-15;
+   softmax with the shift by the row maximum is exp(x_i)/sum_j exp(x_j) exactly. *)
+Theorem C09_stable_sigmoid :
+  forall x : R, (- 40 <= x <= 40 -> sigmoid ROps x = sig_def x) /\ Rabs (sigmoid ROps x - sig_def x) <= exp (- 40).
+Proof. exact sigmoid_stable. Qed.
+
+Theorem C09_stable_ln_1pe :
+  forall x : R, (x <= 15 -> ln_1pe ROps x = lse_def x) /\ 0 <= lse_def x - ln_1pe ROps x <= exp (- 15).
+Proof. exact ln_1pe_stable. Qed.
+
+Theorem C09_stable_softmax :
+  forall l : list R, l <> [] -> softmax ROps l = softmax_def l.
+Proof. exact softmax_stable. Qed.
+
+(* predict: two classes -- index 1 (the larger label) exactly when the linear score is positive; otherwise the
+   index is the FIRST position at which the row of linear scores attains its maximum. *)
+Theorem C09_predict_is_argmax :
+  forall (M : lr_model (T := R)) (row : list R),
+  (lr_k M = 2%nat ->
+     let z := vdot ROps row (nth 0 (lr_coef M) []) + nth 0 (lr_intercept M) 0 in
+     (0 < z /\ predict_index ROps M row = 1%nat) \/ (z <= 0 /\ predict_index ROps M row = 0%nat)) /\
+  (lr_k M <> 2%nat -> lr_scores M row <> [] ->
+     let i := predict_index ROps M row in
+     (i < length (lr_scores M row))%nat /\
+     (forall j, (j < length (lr_scores M row))%nat -> nth j (lr_scores M row) 0 <= nth i (lr_scores M row) 0) /\
+     (forall j, (j < i)%nat -> nth j (lr_scores M row) 0 < nth i (lr_scores M row) 0)).
+Proof. exact predict_is_argmax. Qed.
+
+Example C09_predict_is_argmax_sat :
+  lr_k ex_lr2 = 2%nat /\ lr_k ex_lr3 <> 2%nat /\ lr_scores ex_lr3 [1; 2] <> [].
+Proof. repeat split; cbn; congruence. Qed.
+
+(* Predicted labels are the stored class values at the predicted index, hence original label values. *)
+Theorem C09_predict_labels_are_class_values :
+  forall (M : lr_model (T := R)) (x : list (list R)),
+  lr_predict ROps M x = map (fun row => nth (predict_index ROps M row) (lr_classes M) 0) x /\
+  (forall row, (predict_index ROps M row < length (lr_classes M))%nat ->
+               In (nth (predict_index ROps M row) (lr_classes M) 0) (lr_classes M)).
+Proof. exact predict_labels. Qed.
